@@ -9,9 +9,9 @@
 (*   - list discipline: a new expectation goes to the FRONT of its         *)
 (*     function's active list, a saturated one to the BACK of the          *)
 (*     saturated list, a destroyed one leaves its list (C02, C14);         *)
-(*   - selection: the search visits the active list front to back, stops   *)
-(*     at the first matching candidate of cost 0, otherwise takes the      *)
-(*     first matching candidate of least cost, otherwise none (C01, C02);  *)
+(*   - selection: the result of the search is the matching candidate of  *)
+(*     least cost, the newest among equals, or none; how the list is      *)
+(*     walked is not constrained (C01, C02);                               *)
 (*   - counting: the chosen expectation, and nobody else, is counted once; *)
 (*     never beyond its upper bound; it saturates exactly when the count   *)
 (*     reaches the upper bound; a forbidding or not-callable candidate is  *)
@@ -90,23 +90,33 @@ GStep(st, ev) ==
                   \o Chk(~Has(st.E, ev.x), "fresh", "HARNESS", "a new expectation", ev.x)
                   \o Chk(ev.hi = -1 \/ ev.lo <= ev.hi, "bounds", "C03", "lower bound <= upper bound", <<ev.lo, ev.hi>>)]
     [] ev.e = "find" ->
+         \* Implementation-agnostic: nothing is said about the order or extent of the search, only about its result.
+         \* The candidates come from the searched list; the result is the matching candidate of least cost, the newest
+         \* among equals; a candidate that was not looked at must not have been able to win.
          LET lst   == Lst(st, ev.l)
              known == \A i \in 1..Len(ev.cands) : Has(st.E, ev.cands[i][1])
-             stop  == StopsAt(ev.cands)
-             want  == Choice(ev.cands)
+             Pos(x) == CHOOSE i \in 1..Len(lst) : lst[i] = x                   \* 1 = newest
+             inlist == \A i \in 1..Len(ev.cands) : \E j \in 1..Len(lst) : lst[j] = ev.cands[i][1]
+             hit   == {i \in 1..Len(ev.cands) : ev.cands[i][2] >= 0}
+             Better(i, j) == ev.cands[i][2] < ev.cands[j][2] \/ (ev.cands[i][2] = ev.cands[j][2] /\ Pos(ev.cands[i][1]) < Pos(ev.cands[j][1]))
+             want  == IF hit = {} THEN 0 ELSE ev.cands[CHOOSE i \in hit : \A j \in hit \ {i} : Better(i, j) \/ ev.cands[i][1] = ev.cands[j][1]][1]
+             seen  == {ev.cands[i][1] : i \in 1..Len(ev.cands)}
+             unseen == {lst[j] : j \in 1..Len(lst)} \ seen
              cost  == IF ev.f = 0 THEN 0
                       ELSE LET is == {i \in 1..Len(ev.cands) : ev.cands[i][1] = ev.f} IN
                            IF is = {} THEN -1 ELSE ev.cands[CHOOSE i \in is : TRUE][2]
+             sound == IF ev.f = 0 THEN unseen = {}
+                      ELSE \A u \in unseen : cost = 0 /\ Pos(u) > Pos(ev.f)
          IN
          [st |-> [st EXCEPT !.ctx = [kind |-> "found", f |-> ev.f, cost |-> cost,
                                      need |-> IF ev.f = 0 THEN 3 ELSE IF cost >= Inf THEN 4 ELSE -1, got |-> 0, gotsev |-> -1, eol |-> 0]],
           mis |-> Settle(st)
                   \o (IF ~known THEN <<>>       \* expectations created before the trace started are not tracked
-                      ELSE Chk(Len(ev.cands) <= Len(lst) /\ Ids(ev.cands) = SubSeq(lst, 1, Len(ev.cands)),
-                               "visit-order", "C02 C14", "the active list, newest first", <<Ids(ev.cands), lst>>)
-                        \o Chk(IF stop > 0 THEN Len(ev.cands) = stop ELSE Len(ev.cands) = Len(lst),
-                               "visit-extent", "C02", "stop at the first candidate of cost 0, else visit all", <<Len(ev.cands), stop, Len(lst)>>)
-                        \o Chk(ev.f = want, "selection", "C01 C02 C05", want, ev.f))]
+                      ELSE Chk(inlist, "foreign-candidate", "C02", "only expectations of the called object and function are candidates", <<Ids(ev.cands), lst>>)
+                        \o (IF ~inlist THEN <<>>
+                            ELSE Chk(ev.f = want, "selection", "C01 C02 C05", want, <<ev.f, ev.cands>>)
+                              \o Chk(ev.f # want \/ sound, "unexamined-candidate", "C01 C02",
+                                     "a candidate that was not examined could not have won", <<ev.f, unseen>>)))]
     [] ev.e = "forbidden" ->
          [st |-> IF Has(st.E, ev.x) THEN [st EXCEPT !.E[ev.x].rep = TRUE, !.ctx.need = 2] ELSE [st EXCEPT !.ctx.need = 2],
           mis |-> Chk(c.kind = "found" /\ c.f = ev.x, "forbidden-is-chosen", "C07", c.f, ev.x)
